@@ -7,5 +7,14 @@ pub open spec fn c_holds(c: Constraint, env: Env) -> bool {
         match (sem(c.lhs, env), sem(c.rhs, env)) { (Some(l), Some(r)) => cmp_sem(c.constraint_type, l, r), _ => false }
     }
 }
+// the same, wherever both sides are defined (an undefined side — a division by zero — demands nothing): this is what a queued
+// constraint demands of an assignment, and what an emitted row is proved to imply
+pub open spec fn c_holds_w(c: Constraint, env: Env) -> bool {
+    if c.is_logic_assertion {
+        sem(c.lhs, env) matches Some(l) ==> truthy(l)
+    } else {
+        (sem(c.lhs, env) is Some && sem(c.rhs, env) is Some) ==> cmp_sem(c.constraint_type, sem(c.lhs, env)->Some_0, sem(c.rhs, env)->Some_0)
+    }
+}
 // every numeric literal of a queued constraint is finite (C08: no NaN / infinity reaches the linear model)
 pub open spec fn c_fin(c: Constraint) -> bool { exp_fin(c.lhs) && exp_fin(c.rhs) }
